@@ -460,8 +460,18 @@ func (x *VC) evSel(e *SExpr, env *SEnv) *Val {
 			}
 		}
 	}
-	base := x.ev(e.Args[0], env)
+	base := x.evRecv(e.Args[0], env)
 	return x.selField(e, base, e.Name, env)
+}
+
+// evRecv evaluates a receiver; `v.(T)` in receiver position is a cast.
+func (x *VC) evRecv(e *SExpr, env *SEnv) *Val {
+	if e.Op == "typeis" {
+		v := x.ev(e.Args[0], env)
+		t := x.resolveType(e.Name, env.pkg)
+		return &Val{K: KScalar, T: v.T, S: v.S, GT: t}
+	}
+	return x.ev(e, env)
 }
 
 func (x *VC) selField(e *SExpr, base *Val, name string, env *SEnv) *Val {
@@ -549,6 +559,17 @@ func lookupFieldAnyPkg(t types.Type, name string) (types.Object, []int) {
 func (x *VC) evIdx(e *SExpr, env *SEnv) *Val {
 	base := x.ev(e.Args[0], env)
 	idx := x.ev(e.Args[1], env)
+	if base.K == KScalar && base.GT != nil {
+		if mt, ok := base.GT.Underlying().(*types.Map); ok {
+			has := x.mapHas(env.cur, mt, base.T, idx.T)
+			vs := x.sortOf(mt.Elem())
+			r := &Val{K: KScalar, T: sIte(has, x.mapGet(env.cur, mt, base.T, idx.T), x.zero(mt.Elem()).T), S: vs, GT: mt.Elem()}
+			if ti := x.elemTypeInv(base.Src); ti != nil {
+				_, r.Alt = x.typeInvCond(ti, r.T)
+			}
+			return r
+		}
+	}
 	switch {
 	case base.K == KSlice:
 		if idx.Lit != nil {
@@ -751,7 +772,7 @@ func (x *VC) evCall(e *SExpr, env *SEnv) *Val {
 				}
 			}
 		}
-		recv := x.ev(fe.Args[0], env)
+		recv := x.evRecv(fe.Args[0], env)
 		var avs []*Val
 		for _, a := range e.Args[1:] {
 			avs = append(avs, x.ev(a, env))
@@ -871,6 +892,42 @@ func (x *VC) typeInvFacts(a *Addr, v *Val) {
 	v.Alt = ts
 	x.assume("true", c)
 	x.externs["typeinv assumed on load: "+ti.Type+"."+ti.Field] = true
+}
+
+// elemTypeInv: `typeinv Type.field[] : alts` constrains the elements of a map/slice-valued field.
+func (x *VC) elemTypeInv(src string) *TypeInv {
+	if src == "" {
+		return nil
+	}
+	for _, ti := range x.eng.db.TypeInvs {
+		if ti.Type+"."+ti.Field == src+"[]" {
+			return ti
+		}
+	}
+	return nil
+}
+
+func (x *VC) elemTypeInvFacts(src string, v *Val, nilOK bool) {
+	ti := x.elemTypeInv(src)
+	if ti == nil {
+		return
+	}
+	c, ts := x.typeInvCond(ti, v.T)
+	v.Alt = ts
+	if nilOK {
+		c = sOr(sEq(v.T, "0"), c)
+	}
+	x.assume("true", c)
+	x.externs["typeinv assumed on load: "+ti.Type+"."+ti.Field] = true
+}
+
+func (x *VC) checkElemTypeInv(src string, v *Val, reach, pos string) {
+	ti := x.elemTypeInv(src)
+	if ti == nil || v.K != KScalar {
+		return
+	}
+	c, _ := x.typeInvCond(ti, v.T)
+	x.addObl("typeinv", ti.Type+"."+ti.Field, pos, reach, c)
 }
 
 func (x *VC) checkTypeInv(a *Addr, v *Val, reach, pos string) {
@@ -1023,6 +1080,9 @@ func (fr *Frame) writeSet(h *ssa.BasicBlock, st *State) (map[string]bool, map[*s
 			}
 			return
 		}
+		if returnsOnlyLogger(f.Signature) {
+			return
+		}
 		if f.Pkg != nil {
 			p := f.Pkg.Pkg.Path()
 			if p == repoPrefix+"client/pkg/log" || p == "github.com/sirupsen/logrus" || p == "runtime/debug" || p == "log" {
@@ -1066,6 +1126,9 @@ func (fr *Frame) writeSet(h *ssa.BasicBlock, st *State) (map[string]bool, map[*s
 				}
 			}
 			if p := cc.Method.Pkg(); p != nil && (p.Path() == repoPrefix+"client/pkg/log") {
+				return
+			}
+			if returnsOnlyLogger(cc.Signature()) {
 				return
 			}
 			impls := x.eng.implementers(it)
